@@ -128,6 +128,10 @@ type c02ImplRun struct {
 	// Bad is the first violation of a per-step invariant ("" if none): the
 	// signature suffix and a description.
 	BadSig, Bad string
+
+	cfg     c02Cfg
+	d       *Decoder
+	loading bool
 }
 
 func (r *c02ImplRun) OK() bool { return r.Err == nil }
@@ -138,23 +142,9 @@ func (r *c02ImplRun) OK() bool { return r.Err == nil }
 // over in a cap==len copy that is overwritten as soon as Write returns: the
 // decoder does not own p.
 func c02RunImpl(cfg c02Cfg, blocks [][][]byte) *c02ImplRun {
-	r := &c02ImplRun{}
-	var d *Decoder
-	bad := func(sig, format string, a ...any) {
-		if r.BadSig == "" {
-			r.BadSig, r.Bad = sig, fmt.Sprintf(format, a...)
-		}
-	}
-	loading := true
-	d = NewDecoder(cfg.Tab, func(f HeaderField) {
-		if loading {
-			return
-		}
-		if cfg.MaxStr != 0 && (len(f.Name) > cfg.MaxStr || len(f.Value) > cfg.MaxStr) {
-			bad("emits-over-max-string-length", "emitted %q=%q with SetMaxStringLength(%d)", f.Name, f.Value, cfg.MaxStr)
-		}
-		r.Fields = append(r.Fields, c02RefField{f.Name, f.Value, f.Sensitive})
-	})
+	r := &c02ImplRun{cfg: cfg, loading: true}
+	d := NewDecoder(cfg.Tab, r.emit)
+	r.d = d
 	for i := 0; i < cfg.Pre; i++ {
 		if _, err := d.Write(c02Exact(c02Preload[i])); err != nil {
 			panic(fmt.Sprintf("harness: preload block %d rejected: %v", i, err))
@@ -163,30 +153,9 @@ func c02RunImpl(cfg c02Cfg, blocks [][][]byte) *c02ImplRun {
 			panic(fmt.Sprintf("harness: preload block %d rejected at Close: %v", i, err))
 		}
 	}
-	loading = false
+	r.loading = false
 	d.SetMaxStringLength(cfg.MaxStr)
-	inv := func(when string) {
-		dt := &d.dynTab
-		var sum uint64
-		for _, e := range dt.table.ents {
-			sum += uint64(len(e.Name)) + uint64(len(e.Value)) + 32
-		}
-		if uint64(dt.size) != sum {
-			bad("table-size-accounting", "%s: dynTab.size=%d but the %d entries sum to %d", when, dt.size, len(dt.table.ents), sum)
-		}
-		if dt.size > dt.maxSize {
-			bad("table-exceeds-max-size", "%s: dynTab.size=%d > maxSize=%d", when, dt.size, dt.maxSize)
-		}
-		if dt.maxSize > dt.allowedMaxSize {
-			bad("max-size-exceeds-allowed", "%s: dynTab.maxSize=%d > allowedMaxSize=%d", when, dt.maxSize, dt.allowedMaxSize)
-		}
-	}
-	inv("after preload")
-	finish := func() *c02ImplRun {
-		r.Table = c02ImplTable(d)
-		r.Size, r.MaxSize = d.dynTab.size, d.dynTab.maxSize
-		return r
-	}
+	r.inv("after preload")
 	for bi, blk := range blocks {
 		fed := 0
 		for _, chunk := range blk {
@@ -195,21 +164,21 @@ func c02RunImpl(cfg c02Cfg, blocks [][][]byte) *c02ImplRun {
 			for i := range p {
 				p[i] = 0xaa
 			}
-			inv("after Write")
+			r.inv("after Write")
 			fed += len(chunk)
 			if d.saveBuf.Len() > fed {
 				// saveBuf holds an unparsed suffix of this block; anything larger
 				// is runaway growth (stop before it exhausts memory)
-				bad("savebuf-larger-than-block", "after %d bytes of the block saveBuf holds %d bytes", fed, d.saveBuf.Len())
+				r.bad("savebuf-larger-than-block", "after %d bytes of the block saveBuf holds %d bytes", fed, d.saveBuf.Len())
 				r.Err, r.ErrAt, r.ErrBlk = fmt.Errorf("harness: stopped feeding"), "write", bi
-				return finish()
+				return r.finish()
 			}
 			if err != nil {
 				r.Err, r.ErrAt, r.ErrBlk = err, "write", bi
-				return finish()
+				return r.finish()
 			}
 			if n != len(chunk) {
-				bad("write-count", "Write of %d bytes returned n=%d, nil", len(chunk), n)
+				r.bad("write-count", "Write of %d bytes returned n=%d, nil", len(chunk), n)
 			}
 			if d.saveBuf.Len() > 0 {
 				r.Resumed = true
@@ -217,14 +186,55 @@ func c02RunImpl(cfg c02Cfg, blocks [][][]byte) *c02ImplRun {
 		}
 		err := d.Close()
 		r.SaveLen = d.saveBuf.Len()
-		inv("after Close")
+		r.inv("after Close")
 		if err != nil {
 			r.Err, r.ErrAt, r.ErrBlk = err, "close", bi
-			return finish()
+			return r.finish()
 		}
 		r.Blocks++
 	}
-	return finish()
+	return r.finish()
+}
+
+func (r *c02ImplRun) bad(sig, format string, a ...any) {
+	if r.BadSig == "" {
+		r.BadSig, r.Bad = sig, fmt.Sprintf(format, a...)
+	}
+}
+
+func (r *c02ImplRun) emit(f HeaderField) {
+	if r.loading {
+		return
+	}
+	if r.cfg.MaxStr != 0 && (len(f.Name) > r.cfg.MaxStr || len(f.Value) > r.cfg.MaxStr) {
+		r.bad("emits-over-max-string-length", "emitted %q=%q with SetMaxStringLength(%d)", f.Name, f.Value, r.cfg.MaxStr)
+	}
+	r.Fields = append(r.Fields, c02RefField{f.Name, f.Value, f.Sensitive})
+}
+
+// inv checks the white-box table invariants.
+func (r *c02ImplRun) inv(when string) {
+	dt := &r.d.dynTab
+	var sum uint64
+	for _, e := range dt.table.ents {
+		sum += uint64(len(e.Name)) + uint64(len(e.Value)) + 32
+	}
+	if uint64(dt.size) != sum {
+		r.bad("table-size-accounting", "%s: dynTab.size=%d but the %d entries sum to %d", when, dt.size, len(dt.table.ents), sum)
+	}
+	if dt.size > dt.maxSize {
+		r.bad("table-exceeds-max-size", "%s: dynTab.size=%d > maxSize=%d", when, dt.size, dt.maxSize)
+	}
+	if dt.maxSize > dt.allowedMaxSize {
+		r.bad("max-size-exceeds-allowed", "%s: dynTab.maxSize=%d > allowedMaxSize=%d", when, dt.maxSize, dt.allowedMaxSize)
+	}
+}
+
+func (r *c02ImplRun) finish() *c02ImplRun {
+	r.Table = c02ImplTable(r.d)
+	r.Size, r.MaxSize = r.d.dynTab.size, r.d.dynTab.maxSize
+	r.d = nil
+	return r
 }
 
 // c02RefRun is the reference's view of the same feeding.
